@@ -240,3 +240,11 @@ def instances(tier):
         for D in (1, 2, 3):
             out.append(cc_instance(lead, D))
     return out
+
+
+_inst_before_lemmas = instances
+
+
+def instances(tier):       # noqa: F811
+    from .common import lemma_instance
+    return _inst_before_lemmas(tier) + [lemma_instance('C10', 'psd', 'lemma:weighted-outer-products-are-psd')]
